@@ -42,6 +42,9 @@ func runReqX(svc string, segs [][]byte, wants []reqWant, have bool) {
 	if modelled {
 		line = segLine("seg1", svc, segs) // compared with the one-request machine of HT.Relay
 	}
+	if svc == "ldap" {
+		line = segLine("seg", svc, segs) // compared with the BER framing machine of HT.Ldap
+	}
 	verdict := "ok"
 	viol := func(sig, d string) {
 		if verdict == "ok" {
@@ -95,6 +98,17 @@ func runReqX(svc string, segs [][]byte, wants []reqWant, have bool) {
 				body = string(b)
 			}
 			r = append(r, svc+":"+hxs(e.Get("http.method"), e.Get("http.url"), body))
+		}
+		if got == "hang" {
+			r = []string{"hang"}
+		}
+		emit(line, joinEv(r), verdict, len(evs) > 0)
+		return
+	}
+	if svc == "ldap" {
+		var r []string
+		for _, e := range evs {
+			r = append(r, "ldap:"+hxs(evAny(e, "ldap.message-id"), evAny(e, "ldap.request-type")))
 		}
 		if got == "hang" {
 			r = []string{"hang"}
@@ -209,6 +223,25 @@ func genLDAPMsgs(r *Rng) ([]byte, []reqWant) {
 		case 2:
 			b = append(b, ldapOpReq(id, 0x6e)...) // compare (gated)
 			ws = append(ws, reqWant{map[string]string{"ldap.request-type": "compare", "ldap.message-id": fmt.Sprint(id)}})
+		}
+		if r.Intn(3) == 0 {
+			// the other operations, and a message whose length needs the long form (a 150..200-byte name)
+			id++
+			ops := []struct {
+				tag byte
+				typ string
+			}{{0x66, "modify"}, {0x68, "add"}, {0x6c, "modify-dn"}, {0x50, "abandon"}, {0x4a, "delete"}}
+			o := ops[r.Intn(len(ops))]
+			inner := berTLV(0x04, []byte("cn="+strings.Repeat("n", r.Pick([]int{1, 100, 122, 123, 124, 150, 200}))+",dc=example"))
+			if o.tag == 0x50 || o.tag == 0x4a {
+				inner = inner[2:]
+				if len(inner) > 120 {
+					inner = inner[len(inner)-120:]
+				}
+			}
+			msg := append(berTLV(0x02, []byte{byte(id)}), berTLV(o.tag, inner)...)
+			b = append(b, berTLV(0x30, msg)...)
+			ws = append(ws, reqWant{map[string]string{"ldap.request-type": o.typ, "ldap.message-id": fmt.Sprint(id)}})
 		}
 		id++
 	}
